@@ -108,12 +108,18 @@ def execute(case, prefix, collect=None):
             node.request_msg(obs, ('activate', None, None))
             obs.lines.clear()
         holder['obs'] = obs
-        sock = N.CoopSock(sched, 'c1', [(l + '\n').encode() for l in case['script']])
+        done = []
+        # the peer stays connected until the driver is through (so that "quiet" can be judged), except in the cases
+        # that race the disconnect itself
+        hold = not case.get('eof_race')
+        sock = N.CoopSock(sched, 'c1', [(l + '\n').encode() for l in case['script']],
+                          eof_when=(lambda: bool(done)) if hold else None)
         holder['sock'] = sock
+        holder['hold'] = hold
         sched.log.append(('init', N.current_cache(node)))
         sched.begin()
         t1 = schedx.Thread(target=N.run_handler(node, sock), name='handler')
-        t2 = schedx.Thread(target=lambda: [N.driver_op(node, op) for op in case['ops']], name='driver')
+        t2 = schedx.Thread(target=lambda: [N.driver_op(node, op) for op in case['ops']] + [done.append(1)], name='driver')
         t1.start()
         t2.start()
         t1.join()
@@ -258,7 +264,7 @@ def judge(case, sched, x, holder):
                 break
             last = n
         # quiet
-        if table.subscribed(p) and eof_idx is None and ups and ups[-1][3] != final[p]:
+        if table.subscribed(p) and (eof_idx is None or holder.get('hold')) and (ups[-1][3] if ups else None) != final[p]:
             viol.append(('last-message-differs-from-cache', f'{p}: last message {ups[-1][3]} but cache {final[p]}'))
     # --- observer
     obs = holder.get('obs')
@@ -302,13 +308,16 @@ def cases(tier):
         for oname in OPS:
             observer = (sname in ('global-deact', 'module-eof')) and oname == 'value2'
             res.append({'name': f'{sname}/{oname}', 'script': SCRIPTS[sname], 'ops': OPS[oname], 'observer': observer,
-                        'level': 'sync', 'bound': 2 if tier == 'quick' else 3})
+                        'level': 'sync', 'bound': 2 if tier == 'quick' else 3, 'eof_race': sname in ('module-eof', 'global-stay')})
+            if sname == 'global-stay':
+                res.append({'name': f'{sname}/{oname}/hold', 'script': SCRIPTS[sname], 'ops': OPS[oname], 'observer': False,
+                            'level': 'sync', 'bound': 2 if tier == 'quick' else 3})
     # line level in the dispatcher / funnel
     line_scripts = ['global-deact', 'param-deact-by-module', 'global-ident', 'module-eof'] if tier == 'quick' else list(SCRIPTS)
     for sname in line_scripts:
         for oname in (['value2'] if tier == 'quick' else ['value2', 'err-recover']):
             res.append({'name': f'{sname}/{oname}/line', 'script': SCRIPTS[sname], 'ops': OPS[oname], 'observer': False,
-                        'level': 'line', 'bound': 1 if tier == 'quick' else 2})
+                        'level': 'line', 'bound': 1 if tier == 'quick' else 2, 'eof_race': sname == 'module-eof'})
     return res
 
 
